@@ -244,6 +244,16 @@ class WriterRun(object):
         self.r_pending = None
       elif op[0] == 'tick':
         self.now += op[1]
+      elif op[0] == 'bulkquery':
+        # graphite-web asks the cache (reactor thread, no lock) about series, cached or not
+        import pickle as _pickle
+        import struct as _struct
+        from twisted.internet.testing import StringTransport as _ST
+        import carbon.protocols as _protocols
+        h = _protocols.CacheManagementHandler()
+        h.makeConnection(_ST())
+        req = _pickle.dumps(dict(type='cache-query-bulk', metrics=list(op[1])), protocol=2)
+        h.dataReceived(_struct.pack('!L', len(req)) + req)
       self.sched.point('op')
 
   def w_body(self):
@@ -331,7 +341,8 @@ class WriterModules(object):
     self.state.events = carbon.events
     self.instrumentation = carbon.instrumentation
     self.writer = env.fresh('carbon.writer')
-    self.files = {self.writer.__file__, self.cache.__file__}
+    import carbon.protocols as _p
+    self.files = {self.writer.__file__, self.cache.__file__, _p.__file__}
     self.buckets = {}
     if self.writer.CREATE_BUCKET is not None:
       self.buckets['CREATE_BUCKET'] = (self.writer.CREATE_BUCKET.capacity, self.writer.CREATE_BUCKET.fill_rate)
